@@ -340,3 +340,15 @@ package tchannel
 //@   loop 0 invariant old(r.err) == nil && r.err == nil ==> np == be16(old(r.remaining), 2)
 //@   loop 0 invariant 0 <= i && i <= int(np)
 //@   property C13
+
+// The handshake deadline put on the socket is the caller's own deadline when
+// the context has one (time already spent, e.g. dialling, counts against it);
+// the only other value ever set is the zero time that clears it afterwards.
+//@ func (ch *Channel) outboundHandshake(ctx context.Context, c net.Conn, outboundHP string, events connectionEvents) (conn *Connection, err error)
+//@   label socket-deadline-is-the-callers-deadline
+//@   atcall SetDeadline (arg1.wall == 0 && arg1.ext == 0) || (hasdl(ctx) ==> nanos(arg1) == dl(ctx))
+//@   property C13 C05
+//@ func (ch *Channel) inboundHandshake(ctx context.Context, c net.Conn, events connectionEvents) (conn *Connection, err error)
+//@   label socket-deadline-is-the-callers-deadline
+//@   atcall SetDeadline (arg1.wall == 0 && arg1.ext == 0) || (hasdl(ctx) ==> nanos(arg1) == dl(ctx))
+//@   property C13 C05
